@@ -128,8 +128,19 @@ def _run_case(case):
         out['points'] = []
         runs = [([], out)]
     else:
+        from tcv.core import HarnessError
         from tcv.gates import explore
-        runs = explore(lambda prefix: h.execute(call, prefix, capacity, raise_at=raise_at))
+        try:
+            runs = list(explore(lambda prefix: h.execute(call, prefix, capacity, raise_at=raise_at)))
+        except HarnessError as e:
+            if 'out of range' not in str(e) and 'divergence' not in str(e):
+                raise
+            # the controller derives how many calls can be in flight from (threads, chunk size): more or fewer than that means the
+            # input is not processed in consecutive chunks of the requested size
+            res.add('evaluations')
+            res.violations.append(Violation(f'parallel_map[{case["impl"]}] calls in flight do not follow chunks of the requested size',
+                                            f'case={case}: {str(e)[:200]}', {'kind': 'pmap', 'case': case, 'choices': []}))
+            runs = []
 
     orders = set()
     for prefix, out in runs:
@@ -288,6 +299,43 @@ except BaseException as e:
     return res
 
 
+def _check_chunk_isolation():
+    """sort=False: the result is a permutation of the outputs WITHIN each chunk - so no element of a later chunk may overtake an element of an
+    earlier one, however long the earlier one takes and however many threads are idle"""
+    import threading as _t
+    import time
+    from collections import Counter
+
+    import tcv
+    import taskchain.utils.threading as th
+
+    tcv.quiet_library()
+    res = Result()
+    for n, threads, cs in ((6, 4, 2), (7, 3, 2), (5, 5, 1), (8, 4, 3)):
+        xs = list(range(n))
+        later_started = _t.Event()
+
+        def f(x, cs=cs, ev=later_started):
+            if x >= cs:
+                ev.set()
+                return x * 10
+            ev.wait(0.4)      # an element of the first chunk: slow, and slower still if a later chunk is already running
+            time.sleep(0.05)
+            return x * 10
+        res.add('evaluations')
+        res.add('transitions')
+        case = {'kind': 'isolation', 'n': n, 'threads': threads, 'chunksize': cs}
+        try:
+            r = th.parallel_map(f, xs, threads=threads, chunksize=cs, sort=False, use_tqdm=False)
+        except Exception as e:  # noqa
+            res.violations.append(Violation('parallel_map[threading] unexpected-exception', f'{case}: {type(e).__name__}: {e}', case))
+            continue
+        exp = [x * 10 for x in xs]
+        if len(r) != n or any(Counter(r[i:i + cs]) != Counter(exp[i:i + cs]) for i in range(0, n, cs)):
+            res.violations.append(Violation('parallel_map[threading] unsorted-not-permutation-within-chunk', f'{case}: slow first chunk: result {r}, chunks of {exp}', case))
+    return res
+
+
 def _check_exception_types():
     """whatever f raises is what the caller gets, and no element is given to f twice - for every kind of exception, also the ones the
     machinery itself may raise or catch (RuntimeError and its subclasses, StopIteration, KeyError, OSError)"""
@@ -345,12 +393,16 @@ def _check_chunked(tier):
     for length in range(0, lmax):
         for size in range(1, smax):
             import collections
-            for kind in ('list', 'iter', 'gen', 'tuple', 'str', 'dict', 'defaultdict', 'deque', 'keys', 'range', 'array', 'frame'):
+            for kind in ('list', 'iter', 'gen', 'tuple', 'str', 'dict', 'defaultdict', 'deque', 'keys', 'range', 'array', 'frame', 'nones', 'tailnone', 'falsy'):
                 src = list(range(10, 10 + length))
                 if kind == 'frame':
                     import pandas as pd
                     data = pd.DataFrame({f'c{i}': [0] * 3 for i in src})   # sized, subscriptable, iterates over column labels
                     src = [f'c{i}' for i in src]
+                elif kind in ('nones', 'tailnone', 'falsy'):
+                    # elements that look like padding / "nothing": None, 0, '', [] are elements like any other
+                    src = {'nones': [None] * length, 'tailnone': src[:-1] + [None] if length else [], 'falsy': [(None, 0, '', [], False)[i % 5] for i in range(length)]}[kind]
+                    data = list(src)
                 elif kind == 'array':
                     import numpy as np
                     data = np.array(src)
@@ -389,6 +441,7 @@ def run(tier, seed):
     ck = _check_chunked(tier)
     ck.merge(_check_exception_types())
     ck.merge(_check_stop_iteration_threads())
+    ck.merge(_check_chunk_isolation())
     res.merge(ck)
     res.merge(_check_stop_iteration())
     if ck.violations:
@@ -413,6 +466,8 @@ def replay(case):
     import tcv
 
     tcv.quiet_library()
+    if case['kind'] == 'isolation':
+        return [v for v in _check_chunk_isolation().violations if v.case == case]
     if case['kind'] == 'stopiter-threads':
         return [v for v in _check_stop_iteration_threads().violations if v.case == case]
     if case['kind'] == 'exctype':
